@@ -43,6 +43,7 @@ def run_history(case, keep_obs):
         stack.enter_context(temporary_override_get_registry_at({GlobalRegistryKey[k]: v for k, v in case['env'].items()}))
         clear_caches()
         b = Builder(case)
+        b.flush_durs()          # histories change registry durations themselves, from these initial values
         c = DeclarativeCircuit()
         entries = []
         flattened = False
